@@ -1,6 +1,7 @@
 package rules
 
 import (
+	"go/types"
 	"go/token"
 	"strings"
 
@@ -29,6 +30,7 @@ func init() {
 		Explain: "Decides the bookkeeping invariant structurally on every path that changes a member's status: storing Failed/Left is paired with an append to the matching list; leaving Failed/Left is paired with removal from the matching list unless an edge establishes the old status was different; all under the memberLock write section; the lists and the member map have a closed set of writers; eraseNode deletes the map entry and emits exactly one reap event, and its callers removed the member from its list first; Stats reports len() of the two lists under the lock; the reap scan visits each element once, uses strict '>' against the configured timeout as adjusted per member from the configured base. Wall-clock behaviour is not covered.",
 		Run: runC15,
 		Mutants: []Mutant{
+			{Name: "rename-locals", Equivalent: true, Regexp: true, File: "serf/serf.go", Func: "func (s *Serf) reap(", Old: `\b(n|m|memberTimeout)\b`, New: "${1}Renamed"},
 			{Name: "failed-not-listed", File: "serf/serf.go", Func: "func (s *Serf) handleNodeLeave(", Old: "\t\ts.failedMembers = append(s.failedMembers, member)\n", New: "", Expect: "R1"},
 			{Name: "forceleave-keeps-failed-entry", File: "serf/serf.go", Func: "func (s *Serf) handleNodeLeaveIntent(", Old: "\t\ts.failedMembers = removeOldMember(s.failedMembers, member.Name)\n", New: "", Expect: "R1"},
 			{Name: "rejoin-keeps-left-entry", File: "serf/serf.go", Func: "func (s *Serf) handleNodeJoin(", Old: "if oldStatus == StatusFailed || oldStatus == StatusLeft {", New: "if oldStatus == StatusFailed {", Expect: "R1"},
@@ -46,6 +48,7 @@ func init() {
 		Explain: "Decides the structural half of per-member event order: every MemberEvent handed to the pipeline is sent by a blocking send while the memberLock write section that made the status change is still held (so sends for one member are serialised in status-change order), and every pipeline stage (snapshot tee, internal-query stage, coalesce loop) is a single goroutine per channel that forwards in the same goroutine that received, never through a spawned goroutine or deferred closure. With FIFO channels this yields an in-order subsequence. Coalescer per-member uniqueness is C17's.",
 		Run: runC16,
 		Mutants: []Mutant{
+			{Name: "stage-keeps-backlog", File: "serf/internal_query.go", Func: "func (s *serfQueries) stream(", Old: "\t\t\t\ts.outCh <- e\n", New: "\t\t\t\tbacklog = append(backlog, e)\n\t\t\t\ts.outCh <- backlog[0]\n\t\t\t\tbacklog = backlog[1:]\n", Old2: "func (s *serfQueries) stream() {\n", New2: "func (s *serfQueries) stream() {\n\tvar backlog []Event\n", Expect: "R2|(*serfQueries).stream"},
 			{Name: "send-after-unlock", File: "serf/serf.go", Func: "func (s *Serf) handleNodeUpdate(", Old: "\ts.memberLock.Lock()\n\tdefer s.memberLock.Unlock()\n", New: "\ts.memberLock.Lock()\n\ts.memberLock.Unlock()\n", Expect: "R1"},
 			{Name: "async-member-event", File: "serf/serf.go", Func: "func (s *Serf) eraseNode(", Old: "\t\ts.config.EventCh <- MemberEvent{\n\t\t\tType:    EventMemberReap,\n\t\t\tMembers: []Member{m.Member},\n\t\t}\n", New: "\t\tev := MemberEvent{\n\t\t\tType:    EventMemberReap,\n\t\t\tMembers: []Member{m.Member},\n\t\t}\n\t\tgo func() { s.config.EventCh <- ev }()\n", Expect: "R1"},
 			{Name: "stage-forwards-in-goroutine", File: "serf/internal_query.go", Func: "func (s *serfQueries) stream(", Old: "\t\t\t\ts.outCh <- e\n", New: "\t\t\t\tgo func() { s.outCh <- e }()\n", Expect: "R2"},
@@ -651,10 +654,10 @@ func runC16(c *an.Ctx) {
 				isFwd := false
 				switch x := in.(type) {
 				case *ssa.Send:
-					isFwd = strings.HasSuffix(an.Path(x.Chan), "outCh") || an.Path(x.Chan) == "$1"
+					isFwd = chanIsOut(x.Chan) || an.Path(x.Chan) == "$1"
 				case *ssa.Select:
 					for _, stt := range x.States {
-						if stt.Dir == 1 && strings.HasSuffix(an.Path(stt.Chan), "outCh") {
+						if stt.Dir == 1 && chanIsOut(stt.Chan) {
 							isFwd = true
 						}
 					}
@@ -663,6 +666,45 @@ func runC16(c *an.Ctx) {
 					return
 				}
 				nf++
+				// FIFO: what is forwarded is the event received in this very iteration, never one kept
+				// in the stage's own memory (a backlog lets a newer event overtake an older one)
+				var vals []ssa.Value
+				switch x := in.(type) {
+				case *ssa.Send:
+					vals = append(vals, x.X)
+				case *ssa.Select:
+					for _, stt := range x.States {
+						if stt.Dir == 1 && chanIsOut(stt.Chan) {
+							vals = append(vals, stt.Send)
+						}
+					}
+				}
+				fresh := func(v ssa.Value) bool {
+					p := an.Path(v)
+					return !strings.Contains(p, "[") && (strings.HasPrefix(p, "select@") || strings.HasPrefix(p, "<-"))
+				}
+				for _, v := range vals {
+					ok := fresh(v)
+					if par, isPar := v.(*ssa.Parameter); isPar && g != f {
+						// closure parameter: every call site passes the event it just received
+						idx := -1
+						for i, q := range g.Params {
+							if q == par {
+								idx = i
+							}
+						}
+						sites := locks.Callers(g)
+						ok = idx >= 0 && len(sites) > 0
+						for _, site := range sites {
+							a := an.CallOf(site).Args
+							k := idx - len(g.FreeVars)*0
+							if k >= len(a) || !fresh(a[k]) {
+								ok = false
+							}
+						}
+					}
+					c.Add(ok, "R2", an.FuncName(f)+":forwards-what-it-just-received", in, "the stage forwards the event it received in this iteration (no backlog from which an older event could be sent after a newer one); forwards "+short(an.Path(v)), "value provenance of the forwarded event")
+				}
 				sync := g == f || (!locks.Escapes(g) && len(locks.Callers(g)) > 0)
 				c.Add(sync, "R2", an.FuncName(f)+":forward-in-receiver", in, "the stage forwards in the goroutine that received the event", "closure is only called directly, never spawned or stored")
 			})
@@ -671,6 +713,20 @@ func runC16(c *an.Ctx) {
 				ok := callee != nil && an.CalleeName(callee) == "(*serfQueries).handleQuery"
 				c.Add(ok, "R2", an.FuncName(f)+":no-spawn-in-stage", gi, "the only goroutine a stage spawns is the internal-query handler (whose events are never forwarded)", "go-statement enumeration")
 			}
+		}
+		// and no stage keeps events in a slice of its own
+		for _, g := range fns {
+			an.Instrs(g, func(in ssa.Instruction) {
+				call, ok := in.(*ssa.Call)
+				if !ok {
+					return
+				}
+				if b, isB := call.Call.Value.(*ssa.Builtin); isB && b.Name() == "append" {
+					if sl, isS := call.Type().Underlying().(*types.Slice); isS && an.TypeLabel(sl.Elem()) == "Event" {
+						c.Add(false, "R2", an.FuncName(f)+":no-event-backlog", in, "a pipeline stage does not queue events in a slice of its own", "append enumeration")
+					}
+				}
+			})
 		}
 		c.Floor("R2", "forward sites in "+an.FuncName(f), nf, 1)
 	}
@@ -715,4 +771,19 @@ func phiCarries(fn *ssa.Function, p, want string) bool {
 		}
 	})
 	return found
+}
+
+// chanIsOut reports whether v is a stage's output channel, directly or through a variable that may hold it.
+func chanIsOut(v ssa.Value) bool {
+	if strings.HasSuffix(an.Path(v), "outCh") {
+		return true
+	}
+	if ph, ok := v.(*ssa.Phi); ok {
+		for _, e := range ph.Edges {
+			if _, again := e.(*ssa.Phi); !again && strings.HasSuffix(an.Path(e), "outCh") {
+				return true
+			}
+		}
+	}
+	return false
 }
